@@ -1,10 +1,9 @@
-// N7 idiom shims over std::collections::BTreeMap<usize, _>: each body is the replaced std iterator chain,
+// N7 idiom shims over std::collections::std::collections::BTreeMap<usize, _>: each body is the replaced std iterator chain,
 // each contract states that chain's documented semantics. external_body = trusted.
-use std::collections::BTreeMap;
 
 // m.entry(k).or_default().push(v)
 #[verifier::external_body]
-pub fn btree_entry_or_default_push(m: &mut BTreeMap<usize, Vec<usize>>, k: usize, v: usize)
+pub fn btree_entry_or_default_push(m: &mut std::collections::BTreeMap<usize, Vec<usize>>, k: usize, v: usize)
     ensures
         final(m)@.dom() == old(m)@.dom().insert(k),
         forall|j: usize| j != k && old(m)@.contains_key(j) ==> final(m)@[j] == old(m)@[j],
@@ -15,7 +14,7 @@ pub fn btree_entry_or_default_push(m: &mut BTreeMap<usize, Vec<usize>>, k: usize
 
 // m.range(..k).next_back()   (greatest key strictly below k)
 #[verifier::external_body]
-pub fn btree_pred<'a, V>(m: &'a BTreeMap<usize, V>, k: usize) -> (r: Option<(&'a usize, &'a V)>)
+pub fn btree_pred<'a, V>(m: &'a std::collections::BTreeMap<usize, V>, k: usize) -> (r: Option<(&'a usize, &'a V)>)
     ensures
         match r {
             Some((a, s)) => *a < k && m@.contains_key(*a) && m@[*a] == *s && forall|b: usize| m@.contains_key(b) && b < k ==> b <= *a,
@@ -27,7 +26,7 @@ pub fn btree_pred<'a, V>(m: &'a BTreeMap<usize, V>, k: usize) -> (r: Option<(&'a
 
 // m.range(..=k).next_back()  (greatest key at or below k)
 #[verifier::external_body]
-pub fn btree_pred_incl<'a, V>(m: &'a BTreeMap<usize, V>, k: usize) -> (r: Option<(&'a usize, &'a V)>)
+pub fn btree_pred_incl<'a, V>(m: &'a std::collections::BTreeMap<usize, V>, k: usize) -> (r: Option<(&'a usize, &'a V)>)
     ensures
         match r {
             Some((a, s)) => *a <= k && m@.contains_key(*a) && m@[*a] == *s && forall|b: usize| m@.contains_key(b) && b <= k ==> b <= *a,
@@ -39,7 +38,7 @@ pub fn btree_pred_incl<'a, V>(m: &'a BTreeMap<usize, V>, k: usize) -> (r: Option
 
 // m.range(k..).next()   (least key at or above k)
 #[verifier::external_body]
-pub fn btree_succ_ge<'a, V>(m: &'a BTreeMap<usize, V>, k: usize) -> (r: Option<(&'a usize, &'a V)>)
+pub fn btree_succ_ge<'a, V>(m: &'a std::collections::BTreeMap<usize, V>, k: usize) -> (r: Option<(&'a usize, &'a V)>)
     ensures
         match r {
             Some((a, s)) => *a >= k && m@.contains_key(*a) && m@[*a] == *s && forall|b: usize| m@.contains_key(b) && b >= k ==> b >= *a,
@@ -51,7 +50,7 @@ pub fn btree_succ_ge<'a, V>(m: &'a BTreeMap<usize, V>, k: usize) -> (r: Option<(
 
 // m.last_key_value()
 #[verifier::external_body]
-pub fn btree_last<'a, V>(m: &'a BTreeMap<usize, V>) -> (r: Option<(&'a usize, &'a V)>)
+pub fn btree_last<'a, V>(m: &'a std::collections::BTreeMap<usize, V>) -> (r: Option<(&'a usize, &'a V)>)
     ensures
         match r {
             Some((a, s)) => m@.contains_key(*a) && m@[*a] == *s && forall|b: usize| m@.contains_key(b) ==> b <= *a,
@@ -63,7 +62,7 @@ pub fn btree_last<'a, V>(m: &'a BTreeMap<usize, V>) -> (r: Option<(&'a usize, &'
 
 // m.first_key_value()
 #[verifier::external_body]
-pub fn btree_first<'a, V>(m: &'a BTreeMap<usize, V>) -> (r: Option<(&'a usize, &'a V)>)
+pub fn btree_first<'a, V>(m: &'a std::collections::BTreeMap<usize, V>) -> (r: Option<(&'a usize, &'a V)>)
     ensures
         match r {
             Some((a, s)) => m@.contains_key(*a) && m@[*a] == *s && forall|b: usize| m@.contains_key(b) ==> b >= *a,
@@ -75,13 +74,13 @@ pub fn btree_first<'a, V>(m: &'a BTreeMap<usize, V>) -> (r: Option<(&'a usize, &
 
 // mem::take(&mut m)
 #[verifier::external_body]
-pub fn take_map<V>(m: &mut BTreeMap<usize, V>) -> (r: BTreeMap<usize, V>)
+pub fn take_map<V>(m: &mut std::collections::BTreeMap<usize, V>) -> (r: std::collections::BTreeMap<usize, V>)
     ensures r@ == old(m)@, final(m)@ == Map::<usize, V>::empty()
 { std::mem::take(m) }
 
 // into_iter().next() on an owned BTreeMap == pop_first (ascending key order)
 #[verifier::external_body]
-pub fn pop_first<V>(m: &mut BTreeMap<usize, V>) -> (r: Option<(usize, V)>)
+pub fn pop_first<V>(m: &mut std::collections::BTreeMap<usize, V>) -> (r: Option<(usize, V)>)
     ensures
         match r {
             Some((k, v)) => old(m)@.contains_key(k) && old(m)@[k] == v && final(m)@ == old(m)@.remove(k)
